@@ -1011,25 +1011,35 @@ func iSortStrings(in *Interp, fn *ssa.Function, a []Value) Value {
 
 func iMutexLock(in *Interp, fn *ssa.Function, a []Value) Value {
 	p := a[0].(PtrV)
-	in.logEvent("acq", p)
-	st := p.sub(0)
-	cur := st.load().(*Term)
-	if cur.op == OpConst && cur.val != 0 {
+	if p.isNil() {
+		in.goPanicf("runtime error: invalid memory address or nil pointer dereference (nil mutex)")
+	}
+	key := in.mutexKey(p)
+	if in.sched != nil {
+		in.yield()
+		in.blockOn(key)
+	} else if in.heldMutex[key] {
 		panic(goPanic{msg: "fatal error: all goroutines are asleep - deadlock! (Lock of a locked mutex in a sequential run)", fn: "(*sync.Mutex).Lock"})
 	}
-	st.store(in.tt.Const(cur.sort, 1))
+	in.heldMutex[key] = true
+	in.logEvent("acq", p)
 	return nil
 }
 
 func iMutexUnlock(in *Interp, fn *ssa.Function, a []Value) Value {
 	p := a[0].(PtrV)
-	st := p.sub(0)
-	cur := st.load().(*Term)
-	if cur.op == OpConst && cur.val == 0 {
+	if p.isNil() {
+		in.goPanicf("runtime error: invalid memory address or nil pointer dereference (nil mutex)")
+	}
+	key := in.mutexKey(p)
+	if !in.heldMutex[key] {
 		panic(goPanic{msg: "fatal error: sync: unlock of unlocked mutex", fn: "(*sync.Mutex).Unlock"})
 	}
-	st.store(in.tt.Const(cur.sort, 0))
 	in.logEvent("rel", p)
+	delete(in.heldMutex, key)
+	if in.sched != nil {
+		in.yield()
+	}
 	return nil
 }
 
